@@ -27,7 +27,7 @@ _LIVE = "Trusted: TLC, the loop-gate stepping, mktor/content. Real goroutines, r
 
 REGISTRY = {
     "C07": {"run": p_crypto.run_c07, "design": "DESIGN.md section 3 C07",
-            "technique": "TLC exhaustive model checking of Handshake.tla (all chunkings of a staged reader) + real handshakes against an independent MSE implementation over a connection that delivers TLC/plan-chosen segments",
+            "technique": "TLC exhaustive model checking of Handshake.tla (all chunkings of a staged reader) + real handshakes against an independent MSE implementation over a connection that delivers TLC/plan-chosen segments + every cell of the CryptoPolicy.tla table for the agreement of the two ends (over net.Pipe and over a buffering connection)",
             "level": "Handshake.tla checks BufIsReceived/StageAligned/SurplusExact for every chunking of an abstract field layout; the real protocol/crypto handshakes run "
                      "in both roles against the harness's independent implementation with every single cut at each field boundary, byte-at-a-time, coalesced and multi-cut "
                      "plans: the handshake must succeed with the right hash, ids, capability bits and cipher mode, and bytes glued to it reach the message layer exactly once, in order.",
@@ -46,7 +46,7 @@ REGISTRY = {
                      "from a local web seed (3 layouts x 3 server modes): stored blocks must be the right bytes and inFlight must return to zero.",
             "note": "Trusted: TLC, the scripted HTTP server, mktor/content."},
     "C18": {"run": p_privacy.run, "design": "DESIGN.md section 3 C18",
-            "technique": "TLC exhaustive model checking of Privacy.tla + edge-covering walks of its state graph executed on a running torrent with every outbound channel observed (local HTTP/UDP tracker, web seed, SOCKS5 proxy, DHT announce hook, scripted peers) + TLC trace validation of the recorded traces (PrivacyTrace.tla)",
+            "technique": "TLC exhaustive model checking of Privacy.tla (usable and unusable proxy) + edge-covering walks of its state graph executed on a running torrent with every outbound channel observed (local HTTP/UDP tracker, web seed, SOCKS5 proxy, DHT announce hook, scripted peers) + TLC trace validation of the recorded traces (PrivacyTrace.tla)",
             "level": "Privacy.tla (configuration x proxy x tracker-due x piece-wanted; Start, SetConf, DhtEvent, TrackerDue, Tick, Want, Incoming, Outgoing) is model-checked "
                      "exhaustively (PrivacyInv: nothing in Forbidden(conf, proxy) is ever produced). Walks covering every edge of the graph are executed on a real torrent "
                      "(its tickers stopped and fired on demand): the tracker and web seed are a local HTTP server, the proxy a local SOCKS5 server that "
@@ -75,7 +75,7 @@ REGISTRY = {
                      "unverified piece it still wants, the priority table equals what the consumers hold, no double close (crash). The idle priority (waiters that register no priority) and the pruning of idle entries on configuration changes are part of the model; TLC refutes pruning without closing the channel.",
             "note": _LIVE},
     "C17": {"run": p_live.run_c17, "design": "DESIGN.md section 3 C17",
-            "technique": "TLC model checking (liveness under fairness) of Lifecycle.tla + every operation x stop point executed on a real running torrent",
+            "technique": "TLC model checking (liveness under fairness) of Lifecycle.tla + every operation x stop point executed on a real running torrent (with peers, a blocked reader, and an outstanding web-seed fetch)",
             "level": "Lifecycle.tla models the send/await selects of the four call shapes, the loop and its exit path; TLC checks that every call returns "
                      "(weak fairness) and the loop never waits for a vanished caller, for all pairs of shapes plus a deleter; each of the 17 exported operations "
                      "is executed at each realisable stop point on a real torrent with peers and a blocked reader: the call must return, and after Kill the torrent "
@@ -106,7 +106,7 @@ REGISTRY = {
                      "its shipped variant refuted, and walks covering every edge of both variants are run with a writer channel the harness stops reading.",
             "note": "Trusted: TLC, the stepping shims. Head drop at reqQ=250 under congestion is not driven."},
     "C11": {"run": p_sched.run, "design": "DESIGN.md section 3 C11",
-            "technique": "TLC model checking of Sched.tla / Advert.tla / Pex.tla + behaviours and case tables executed on the real peer code with every message written to the wire checked",
+            "technique": "TLC model checking of Sched.tla / Advert.tla / Pex.tla / BlockName.tla + behaviours and case tables executed on the real peer code with every message written to the wire checked",
             "level": "Requests/cancels: the Sched.tla behaviours (see C09) are applied to the real handlers and every Request/Cancel the peer writes is checked "
                      "against what the remote has advertised/allowed at that moment (index, alignment, exact length incl. the short last block, choke/allowed-fast, "
                      "duplicates, queue depth). Advertisement: Advert.tla enumerated over piece counts 1..17, 24, 71..73, 144, 145, 160 x held sets x fast; the "
@@ -117,8 +117,11 @@ REGISTRY = {
             "level": "Sched.tla (explicit mailboxes both ways, request/cancel/choke/reject/expiry/piece-payload classes, bitmap changes) is model-checked "
                      "exhaustively for one peer with the full message alphabet and two peers with a reduced one; simulated two-peer behaviours are applied "
                      "to tor.handleEvent/request and peer.handleEvent/handleMessage/expireRequests/maybeRequest with harness-owned mailboxes; at every "
-                     "quiescent point inFlight and available are compared with what the peers really hold/advertise, in Go and again by TLC.",
-            "note": "Trusted: TLC, the stepping shims (export_verif files), fakepeer. Exit paths of peer.Run and Go select races are outside this binding."},
+                     "quiescent point inFlight and available are compared with what the peers really hold/advertise, in Go and again by TLC. "
+                     "Mailbox.tla (bounded torrent mailbox, private backlog, idle peer flushes at once; Ordered, AllArrive) is model-checked and bound to a real "
+                     "peer.Run over net.Pipe held at the writeEvent yield point: every <= 12-step schedule on which the deviation mailbox_first reorders, and "
+                     "simulated complete runs, are replayed and the availability must be zero once the peer has left.",
+            "note": "Trusted: TLC, the stepping shims (export_verif files), fakepeer. Go select races other than the mailbox hand-over are outside this binding."},
     "C15": {"run": p_tracker.run, "design": "DESIGN.md section 3 C15",
             "technique": "TLC exhaustive model checking of Tracker.tla / UdpExchange.tla + replay of every edge / every reply sequence on the real tracker code against scripted local trackers",
             "level": "Tracker.tla (lock, readiness with the 5/15/30 min rules, reply classes, minimum-gap history) and UdpExchange.tla (4-attempt "
